@@ -8,7 +8,9 @@ scaled-down stream-id space (see vt/c09lib.py):
     connection), the server answers any unanswered request (also one whose client already timed out; an EXECUTE
     also with UNPREPARED, which makes the driver send a PREPARE and then the EXECUTE again, each step from an
     executor task), the client timeout of any request fires, the connection fails, the socket of a connection
-    stops / starts being writable (send_msg refuses with ConnectionBusy), the next executor task runs (connection
+    stops / starts being writable (send_msg refuses with ConnectionBusy), a caller issues a blocking request through
+    Connection.wait_for_response with a client-side timeout on the pooled connection (answered in time, or the timed wait
+    expires in virtual time and the answer is late like any other), the next executor task runs (connection
     replacement, retry, re-prepare steps)}, with canonical-state dedup; every clause of the property is judged in
     every state.
  S  all schedules (preemption-bounded, line-granular in the focus functions) of client threads
@@ -22,7 +24,7 @@ from vt.c09lib import W9, judge, flags_key
 from vt.core import Part, HarnessError
 
 KS = ['ks1', 'ks2']
-NONTRIVIAL = set(['reuse', 'orphan', 'use-switched', 'use-noop', 'reprepare-sent', 'send-refused'])
+NONTRIVIAL = set(['reuse', 'orphan', 'use-switched', 'use-noop', 'reprepare-sent', 'send-refused', 'block-timed-out'])
 
 import cassandra.connection as _conn
 import cassandra.pool as _pool
@@ -32,6 +34,7 @@ META = {
     'level': 'model_checking',
     'engine': 'E+S',
     'technique': 'explicit-state BFS over send/keyspace-switch/answer/UNPREPARED-answer/timeout/late-answer/failure/socket-not-writable/'
+                 'blocking-request(answered|timed out)/'
                  'executor-task histories with canonical-state dedup, plus '
                  'preemption-bounded line-granular schedule enumeration of client threads against the reactor thread, on the real '
                  'Session, HostConnection, Connection and ResponseFuture',
@@ -57,6 +60,13 @@ META = {
             'again at any later point (Connection._socket_writable, the flag the libev reactor clears on EAGAIN): every request sent '
             'meanwhile - first send, PREPARE or second EXECUTE of a re-prepare - is refused by send_msg with ConnectionBusy after the '
             'pool handed out a slot and a stream id (v4 one connection, v2 two connections, v4 with a re-prepare). '
+            'In the blocking-request configurations a caller other than the event loop sends a tagged query through '
+            'Connection.wait_for_response(timeout=1 s) on a pooled connection in service (the call the control connection, '
+            'set_keyspace_blocking and register_watcher are built on), once or twice per history at any point: either the node answers '
+            'while the caller waits (the caller must get the tag of its own request) or the timed wait expires in virtual time '
+            '(OperationTimedOut) and the request stays unanswered on the wire, to be answered late - or never - at any later point while '
+            'up to three ordinary requests are sent, answered, timed out and take the ids the FIFO free list offers (ids 0..2 with two '
+            'blocking requests; ids 0..3 with one connection failure; protocol-v2 pool of two connections with ids 0..1). '
             'S: 2 client threads x 1-2 execute_async (or one thread switching the keyspace, on a session with no keyspace / already on that '
             'keyspace / with no recycled id free), on top of a prologue that leaves a request outstanding or orphaned, against a reactor '
             'thread that delivers answers, fires one client timeout (thorough: and one connection failure) in every order; every schedule '
@@ -87,6 +97,8 @@ def input_class(st):
             cls += '/several-connections'       # a pool of two connections, or a connection that has been replaced
     if 'unwritable' in st.flags:
         cls += '/socket-not-writable'
+    if st.blocks:
+        cls += '/blocking-request'
     return cls
 
 
@@ -122,6 +134,9 @@ class H(explore.Harness):
                          'flags': list(fk)}, limit=1)
         if 'send-refused' in st.flags and 'reprepare-sent' in st.flags:
             part.sample({'layer': 'E', 'socket not writable': True, 'history': hist, 'arrivals (conn, stream, tag)': st.arrivals,
+                         'flags': list(fk)}, limit=1)
+        if 'block-late' in st.flags and 'reuse' in st.flags and 'block-answered' in st.flags:
+            part.sample({'layer': 'E', 'blocking requests': st.blocks, 'history': hist, 'arrivals (conn, stream, tag)': st.arrivals,
                          'flags': list(fk)}, limit=1)
         if 'use-noop' in st.flags and 'use-switched' in st.flags and 'reuse' in st.flags:
             part.sample({'layer': 'E', 'keyspace switches': True, 'history': hist, 'arrivals (conn, stream, tag)': st.arrivals,
@@ -176,6 +191,14 @@ def e_configs(ctx):
         ('v2-pool-unwritable', dict(base, protocol_version=2, max_in_flight=1, n_req=3, max_unwritable=1, max_faults=0), 6, 8),
         # ... at the sends of the re-prepare chain (PREPARE, second EXECUTE)
         ('v4-prep-unwritable', dict(base, prepared=True, n_req=1, max_unprepared=1, max_unwritable=1, max_faults=0), 7, 9),
+        # ---- blocking requests: a caller sends through Connection.wait_for_response with a client-side timeout on the pooled
+        # connection; the node answers in time, or the timed wait expires and the answer comes late (or never) while further
+        # requests take the ids the FIFO free list offers (ids 0..2: the list comes round after three allocations)
+        ('v4-block', dict(base, max_in_flight=3, initial_ids=1, n_req=3, n_block=2, max_faults=0), 7, 9),
+        # ids 0..3, two free after the handshake, one connection failure
+        ('v4-block-grow-fault', dict(base, initial_ids=2, n_req=3, n_block=1, max_faults=1), 7, 9),
+        # legacy pool, two connections of ids 0..1
+        ('v2-pool-block', dict(base, protocol_version=2, max_in_flight=1, n_req=3, n_block=1, max_faults=0), 7, 9),
     ]
     return [(n, p, dt if ctx.thorough else dq) for n, p, dq, dt in cfgs if _only(n)]
 
@@ -344,6 +367,9 @@ def _layer(ctx, name, fn):
         'with_client_timeout_while_PREPARE_outstanding': d.get(name + '_transitions_with_timeout-prepare-outstanding', 0),
         'with_client_timeout_while_retry_or_re-prepare_step_queued': d.get(name + '_transitions_with_timeout-task-queued', 0),
         'with_send_refused_socket_not_writable': d.get(name + '_transitions_with_send-refused', 0),
+        'with_blocking_request_timed_out': d.get(name + '_transitions_with_block-timed-out', 0),
+        'with_late_answer_to_timed_out_blocking_request': d.get(name + '_transitions_with_block-late', 0),
+        'with_blocking_request_answered_in_time': d.get(name + '_transitions_with_block-answered', 0),
         'wall_s': round(time.time() - t0, 1)}
 
 
@@ -365,10 +391,12 @@ def run(ctx):
                        'answered on a live connection, re-executed = the EXECUTE arrived a second time, timeout-prepare-outstanding / '
                        'timeout-task-queued = a client timeout fired while the PREPARE was unanswered / while a retry or re-prepare step of that '
                        'request was queued on the executor, unwritable = the socket of a connection stopped being writable, send-refused = a '
-                       'request was refused with ConnectionBusy), '
+                       'request was refused with ConnectionBusy, block-answered / block-timed-out / block-no-slot = a blocking request '
+                       '(Connection.wait_for_response) was answered in time / hit its client-side timeout after it was sent / found no '
+                       'free id for the whole of its timeout, block-late = the answer to a timed-out blocking request arrived on a live connection), '
                        'for S also whether the schedule switched threads mid-way.  Non-trivial also counts states/schedules with a keyspace switch '
-                       'that reached the pooled connection, states in which a re-prepare really sent its PREPARE and states in which a send was '
-                       'really refused')
+                       'that reached the pooled connection, states in which a re-prepare really sent its PREPARE, states in which a send was '
+                       'really refused and states in which a blocking request really timed out with its request on the wire')
     ctx.cov['preemption_bound'] = dict((n, b) for n, _, b in s_configs(ctx))
     ctx.cov['depth_bound'] = dict((n, d) for n, _, d in e_configs(ctx))
     ctx.assume('engine E: handlers are atomic with respect to each other (single-threaded histories)')
@@ -387,6 +415,10 @@ def run(ctx):
                'driver queued on the executor keeps its slot until that task has run: such a connection is not "everything answered" yet')
     ctx.assume('socket not writable: Connection._socket_writable is cleared and set by the explorer (in the driver only the libev reactor does '
                'that, on EAGAIN / when the socket drains); while it is cleared nothing the driver had already accepted is lost')
+    ctx.assume('blocking requests: the caller of Connection.wait_for_response is a thread other than the event loop; in engine E the send, '
+               'the wait and its outcome (answer within the timeout, or expiry of the timed wait) are one atomic event, and the virtual clock '
+               'moves on by the timeout when the wait expires.  The blocking request is issued directly on the pooled connection (not through '
+               'ControlConnection or the pool constructor), with the same id space as every other request of that connection')
     ctx.assume('the id space is scaled down (max_in_flight 3-4, initial free list 1-2 ids, orphaned_threshold 2); the code paths are the same as for 32768 ids')
 
 
